@@ -343,6 +343,22 @@ class G:
     def suite_alg(self, npairs):
         """C01: every binary op, both forms, shortcuts, self-ops; operands unchanged"""
         r = self.r
+        # the same object on both sides, for empty, emptied and non-empty bitmaps: every read-only shortcut and every form
+        e0, e1, e2 = self.fresh(), self.fresh(), self.fresh()
+        self.emit("new %s" % e0)
+        self.build(e1)
+        self.emit("iandnot %s %s" % (e1, e1))
+        self.build(e2)
+        for x in (e0, e1, e2):
+            for q in ("isect", "andcard", "orcard", "eq"):
+                self.emit("%s %s %s" % (q, x, x))
+            for op in ("and", "or", "xor", "andnot"):
+                self.emit("%s %s %s %s" % (op, self.fresh(), x, x))
+            self.count("alg:selfops")
+        for x in (e0, e1):
+            self.emit("isect %s %s" % (x, e2))
+            self.emit("isect %s %s" % (e2, x))
+            self.emit("isect %s %s" % (e0, e1))
         for _ in range(npairs):
             a, b, keys = self.pair()
             for op in ("and", "or", "xor", "andnot"):
